@@ -104,6 +104,17 @@ def gen_plan(seed: int, tier: str, focus: str = "c10") -> dict:
             comp = r.choice([{"op": "desc_update", "addrs": addrs, "s": r.randrange(1, 4)}, {"op": "get", "ids": [[1, 10]]}, {"op": "subscribe", "ids": [[1, 10]]}])
             comp.update(t=t, ticks=r.choice([0, 1, 1, 2, 3, 4, 5, 8]))
             ops.append(comp)
+    if n_hosts >= 2 and r.random() < (0.25 if focus == "c11" else 0.1):
+        # aimed at the staggered (happy-eyeballs) connect: the first address hangs, a later one answers, and a close / trigger lands
+        # in the few loop iterations right after that socket connected - while the race is still cancelling its losers
+        kinds[0] = r.choice(["blackhole", "blackhole", "unreachable"])
+        kinds[1] = "genuine"
+        profile["hosts"] = [[a, k] for a, k in zip(addrs, kinds)]
+        profile["connect"] = {"ok": 1.0, "refuse": 0, "blackhole": 0, "unreachable": 0, "slow": 0}
+        for _ in range(r.choice([1, 1, 2])):
+            aimed = r.choice([{"op": "close"}, {"op": "close"}, {"op": "shutdown"}, {"op": "desc_update", "addrs": addrs, "s": 2}, {"op": "cancel_call"}])
+            aimed.update(on_accept=True, ticks=r.randrange(0, 10), t=r.choice([0.0, 0.0, 0.1, rnd_time(r, horizon)]))
+            ops.append(aimed)
     ops.sort(key=lambda o: o["t"])
     # make sure advertised addresses that the workload switches to exist on the network
     for a in ADDRS[:4]:
